@@ -30,8 +30,8 @@ ORIG = ('<ns0:Root xmlns:ns0="urn:a" a="7" b="x&lt;y é"><ns0:q xmlns:ns1="urn:q
         '<ns0:item n="1" flag="true"><ns0:v>hello &amp; bye</ns0:v></ns0:item><ns0:item n="2"/></ns0:Root>').encode()
 
 SPELLINGS = {
-    "default-ns-utf16": ('<?xml version="1.0" encoding="UTF-16"?>\n<Root xmlns="urn:a" b="x&lt;y é" a="7">\n  <q xmlns="urn:q" '
-                         'xmlns:r="urn:a">n1</q>\n  <item flag=" true " n=" 1">\n    <v>hello &amp; bye</v>\n  </item>\n  <item n="2"></item>\n</Root>\n').encode("utf-16"),
+    "default-ns-utf16": ('<?xml version="1.0" encoding="UTF-16"?>\n<Root xmlns="urn:a" b="x&lt;y é" a="7">\n  <r:q xmlns="urn:q" '
+                         'xmlns:r="urn:a">n1</r:q>\n  <item flag=" true " n=" 1">\n    <v>hello &amp; bye</v>\n  </item>\n  <item n="2"></item>\n</Root>\n').encode("utf-16"),
     "cdata-charref-latin1": ("<?xml version='1.0' encoding='ISO-8859-1'?><!DOCTYPE p:Root><p:Root b='x&#60;y &#xE9;' a='&#55;' xmlns:p='urn:a'>"
                              "<!-- c --><p:q xmlns:z='urn:q'>z:n1</p:q><?pi x?><p:item flag='1' n='1'><p:v><![CDATA[hello & ]]>b&#121;e</p:v></p:item>"
                              "<p:item n='2'/></p:Root><!-- after -->").encode("iso-8859-1"),
